@@ -118,7 +118,7 @@ def run(prop, cfg, tier, seed, replay):
     extra_env = None
     if ok and cfg.get("race"):
         ok, out = L.build_go_tool("harness", tags="verif", race=True)
-        extra_env = {"OAP_SCN_BIN": os.path.join(L.BIN, "harness-race"), "OAP_UNIT_MS": "100", "OAP_PARALLEL": "8"}
+        extra_env = {"OAP_SCN_BIN": os.path.join(L.BIN, "harness-race"), "OAP_UNIT_MS": "100", "OAP_PARALLEL": "8", "OAP_HOOK_LOG": "0"}
     if not ok:
         problems.append("harness does not build against /repo (API changed?): " + out[-600:])
     else:
